@@ -71,6 +71,8 @@ fn gen_card(r: &mut Rng, slow: bool) -> CardCfg {
         slow,
         gap_after_stop: r.chance(1, 2),
         ocr_extra: *r.pick(&[0u8, 0, 0x20, 0x01, 0x21]),
+        resp_hi: *r.pick(&[7u8, 7, 0, 5, 2, 1]),
+        cmd59_illegal: false,
         adversary: Adversary::None,
     }
 }
@@ -167,7 +169,22 @@ pub fn gen_case(prop: &str, seed: u64) -> SdCase {
             ops.insert(1, SdOp::Read { block: r.range(0, cap.saturating_sub(8)), n: 1 });
         }
     }
-    SdCase { card, use_crc, acquire_retries: *r.pick(&[50u32, 50, 1, 5]), ops, bus_fail_at }
+    let mut use_crc = use_crc;
+    let mut acquire_retries = *r.pick(&[50u32, 50, 1, 5, 0]);
+    if acquire_retries == 0 && bus_fail_at.is_none() && !matches!(card.adversary, Adversary::SilentFrom(_) | Adversary::BusyFrom(_) | Adversary::GarbageFrom(_)) {
+        // "no retries" is only a legal expectation of success when the card answers the first CMD0 properly
+        card.cmd0_bad_answers = 0;
+    }
+    if acquire_retries == 0 && card.cmd0_bad_answers > 0 {
+        acquire_retries = 1;
+    }
+    if prop == "C13" && matches!(card.adversary, Adversary::FlipBits { .. }) && r.chance(1, 6) {
+        // a card that refuses CRC_ON_OFF while the host was asked for CRC: whatever the driver then does, it must
+        // not hand out a block whose CRC does not match
+        card.cmd59_illegal = true;
+        use_crc = true;
+    }
+    SdCase { card, use_crc, acquire_retries, ops, bus_fail_at }
 }
 
 struct Rig {
@@ -254,7 +271,8 @@ pub fn sd_eval(prop: &'static str, case: &SdCase) -> CaseOutcome {
     let cap = case.card.capacity_blocks();
     let mut twin: BTreeMap<u64, [u8; 512]> = BTreeMap::new();
     let expect_block = |twin: &BTreeMap<u64, [u8; 512]>, b: u64| twin.get(&b).copied().unwrap_or_else(|| default_fill(b));
-    let adversarial = case.card.adversary != Adversary::None || case.bus_fail_at.is_some();
+    let crc_refused = case.card.cmd59_illegal && case.use_crc;
+    let adversarial = case.card.adversary != Adversary::None || case.bus_fail_at.is_some() || crc_refused;
     let unreliable_answers = matches!(case.card.adversary, Adversary::GarbageFrom(_) | Adversary::BusyFrom(_));
     let wire_altered0 = matches!(case.card.adversary, Adversary::FlipBits { .. } | Adversary::SilentFrom(_) | Adversary::BusyFrom(_) | Adversary::GarbageFrom(_));
     let mut h = 0xcbf29ce484222325u64;
@@ -793,6 +811,8 @@ pub fn enumerated_flip_case(i: u64) -> SdCase {
         slow: false,
         gap_after_stop: i % 2 == 0,
         ocr_extra: 0,
+        resp_hi: 7,
+        cmd59_illegal: false,
         adversary: Adversary::FlipBits { block_no: if multi { 1 } else { 0 }, bits: vec![bit] },
     };
     let ops = if multi { vec![SdOp::Read { block: 5 + i % 50, n: 3 }, SdOp::Read { block: 5 + i % 50, n: 3 }, SdOp::Write { block: 2, n: 2, seed: i as u32 }] } else { vec![SdOp::Read { block: i % 200, n: 1 }, SdOp::Read { block: i % 200, n: 1 }] };
